@@ -121,8 +121,8 @@ theorem AddrPreserving.keyPreserving {op : WOp} (h : AddrPreserving op.res) : Ke
 `decide` produces writes the caller's own key, and a saved record carries that address -/
 theorem decide_key {op : WOp} {ex : Option Server} {now : Int} {b : Batch} {r : WResult}
     (hap : KeyPreserving op) (hex : ∀ e, ex = some e → e.addr.key = op.svr.addr.key)
-    (h : decide op ex now = .inr (b, r)) : b.key = op.svr.addr.key := by
-  unfold decide at h
+    (h : decideOp op ex now = .inr (b, r)) : b.key = op.svr.addr.key := by
+  unfold decideOp at h
   split at h
   · cases h; rfl
   · rename_i e
@@ -155,8 +155,8 @@ theorem decide_key {op : WOp} {ex : Option Server} {now : Int} {b : Batch} {r : 
 
 /-- `decide` never queues a batch together with an error result -/
 theorem decide_inr_ok {op : WOp} {ex : Option Server} {now : Int} {b : Batch} {r : WResult}
-    (h : decide op ex now = .inr (b, r)) : ∃ x, r = .ok x := by
-  unfold decide at h
+    (h : decideOp op ex now = .inr (b, r)) : ∃ x, r = .ok x := by
+  unfold decideOp at h
   split at h
   · cases h; exact ⟨_, rfl⟩
   · split at h
@@ -278,7 +278,7 @@ structure WInv (st : RStore) (w : Writer) : Prop where
   readCur : ∀ (v : Nat) (ex : Option Server) (now : Int) (b : Batch) (r : WResult),
     w.pc = .exec v ex now b r → v = st.verOf w.key → ex = st.items[w.key]?
   execDecide : ∀ (v : Nat) (ex : Option Server) (now : Int) (b : Batch) (r : WResult),
-    w.pc = .exec v ex now b r → decide w.op ex now = .inr (b, r)
+    w.pc = .exec v ex now b r → decideOp w.op ex now = .inr (b, r)
   execKey : ∀ (v : Nat) (ex : Option Server) (now : Int) (b : Batch) (r : WResult),
     w.pc = .exec v ex now b r → b.key = w.key
   resAP : KeyPreserving w.op
@@ -662,19 +662,19 @@ theorem inv_wstep {s : Sys} (h : Inv s) (i : Nat) (w : Writer) (hc : s.clients[i
         exact inv_wstep_quiet h hc hr rfl (WInv.of_ver_none rfl hap)
   | hget v =>
     have hvle := hw.verLe v (by rw [hpc]; rfl)
-    cases hd : decide w.op (s.store.items[w.key]?) s.clock with
+    cases hd : decideOp w.op (s.store.items[w.key]?) s.clock with
     | inl r =>
       have hr : wstep s.store s.clock s.nextTok i w =
           (s.store, { w with pc := .unwatch (.finished r) }, false, none) := by
         simp only [wstep, hpc]
-        rw [show decide w.op (s.store.items[w.op.svr.addr.key]?) s.clock = .inl r from hd]
+        rw [show decideOp w.op (s.store.items[w.op.svr.addr.key]?) s.clock = .inl r from hd]
       exact inv_wstep_quiet h hc hr rfl (WInv.of_ver_none rfl hap)
     | inr br =>
       obtain ⟨b, r⟩ := br
       have hr : wstep s.store s.clock s.nextTok i w =
           (s.store, { w with pc := .exec v (s.store.items[w.key]?) s.clock b r }, false, none) := by
         simp only [wstep, hpc]
-        rw [show decide w.op (s.store.items[w.op.svr.addr.key]?) s.clock = .inr (b, r) from hd]
+        rw [show decideOp w.op (s.store.items[w.op.svr.addr.key]?) s.clock = .inr (b, r) from hd]
         rfl
       refine inv_wstep_quiet h hc hr rfl ⟨?_, ?_, ?_, ?_, ?_, hap⟩
       · intro v' hv'; cases hv'; exact hvle
@@ -1312,7 +1312,7 @@ structure LogInv (st0 : RStore) (s : Sys) : Prop where
   entries : ∀ (n : Nat) (c : Commit), s.log[n]? = some c →
     ∃ (w : Writer) (now : Int) (r : WResult), s.clients[c.client]? = some (.writer w) ∧ w.committed = true ∧
       w.pc.fin? = some r ∧ c.before = (replay st0 (s.log.take n)).items[w.key]? ∧
-      decide w.op c.before now = .inr (c.batch, r) ∧ c.batch.key = w.key
+      decideOp w.op c.before now = .inr (c.batch, r) ∧ c.batch.key = w.key
   /-- a writer whose commit flag is up has a log entry -/
   flagged : ∀ (i : Nat) (w : Writer), s.clients[i]? = some (.writer w) → w.committed = true →
     ∃ c ∈ s.log, c.client = i
@@ -1331,7 +1331,7 @@ theorem loginv_step {st0 : RStore} {s : Sys} (h : Inv s) (hl : LogInv st0 s) (e 
   · -- a commit by writer `i`
     have hw := h.winv i w hc
     have hbk : b.key = w.key := hw.execKey v ex now b r hpc
-    have hdec : decide w.op (s.store.items[w.key]?) now = .inr (b, r) := by
+    have hdec : decideOp w.op (s.store.items[w.key]?) now = .inr (b, r) := by
       rw [← hw.readCur v ex now b r hpc hv.symm]; exact hw.execDecide v ex now b r hpc
     have hcl : ∀ j : Nat, (s.commitBy i w b r).clients[j]? =
         if j = i then some (.writer { w with pc := .unwatch (.finished r), committed := true }) else s.clients[j]? :=
